@@ -8,7 +8,8 @@
   Values (no spaces):  N | T | F | I<int> | S<cp.cp…> (code points, hex) | A<0|1><cps> (opaque leaf, truthy bit)
                        | O<cps> (unserialisable object of that class) | L(v,…) | U(v,…) | D(<cps>:v,…)
   exc  = X(<cps of class>;L(args…);D(attrs…))        step = R<val> | E<exc>
-  ctor = -  (constructors return their arguments)  |  =<cps>=L(…)  (class <cps> returns these args)
+  ctor = -  (constructors return an instance of the class with their arguments)
+         |  =<cps>=<cps'>=L(…)  (class <cps> returns an instance of <cps'> with these args)
          |  !<cps>=<cps>  (class <cps>'s constructor raises an exception of the second class)
 
   Reply:  <outcome> y=<L(…)> rel=<0|1> conn=<a|d>     outcome = value:<val> | raised:<exc> | connlost | codecfailed | unmodelled
@@ -106,21 +107,24 @@ def pStep : P Step
 
 def eqStr (a b : Str) : Bool := a == b
 
-def parseCtor (s : String) : Option (Str → List Val → Except Exc (List Val)) :=
+def parseCtor (s : String) : Option (Str → List Val → Except Exc (Str × List Val)) :=
   match s.toList with
-  | ['-'] => some (fun _ a => .ok a)
+  | ['-'] => some (fun c a => .ok (c, a))
   | '=' :: r =>
     match pCps [] r with
     | some (q, '=' :: r1) =>
-      match pVal r1 with
-      | some (.list out, []) => some (fun c a => if eqStr c q then .ok out else .ok a)
+      match pCps [] r1 with
+      | some (q', '=' :: r2) =>
+        match pVal r2 with
+        | some (.list out, []) => some (fun c a => if eqStr c q then .ok (q', out) else .ok (c, a))
+        | _ => none
       | _ => none
     | _ => none
   | '!' :: r =>
     match pCps [] r with
     | some (q, '=' :: r1) =>
       match pCps [] r1 with
-      | some (x, []) => some (fun c a => if eqStr c q then .error (pyErr x) else .ok a)
+      | some (x, []) => some (fun c a => if eqStr c q then .error (pyErr x) else .ok (c, a))
       | _ => none
     | _ => none
   | _ => none
